@@ -18,6 +18,10 @@ def ctzGo : Nat → Nat → Nat → Nat
 def kfReal : KF where
   pl := fun a b => if a = b then 256 else 255 - Nat.log2 (a ^^^ b)
   sl := fun k => if k = 0 then 1 else 256 - ctzGo 256 k 0
+  canon := true
+
+/-- the code before the repair of finding F22 (commit `d4be933`) -/
+def kfPreF22 : KF := { kfReal with canon := false }
 
 theorem div_eq_of_xor_lt {a b k : Nat} (h : a ^^^ b < 2 ^ k) : a / 2 ^ k = b / 2 ^ k := by
   apply Nat.eq_of_testBit_eq
@@ -101,5 +105,10 @@ theorem kfReal_ok : KFOK kfReal where
     have := ctzGo_lt 256 b 0 (256 - p) hmod (by omega)
     omega
   seeded := rfl
+
+theorem kfReal_canon : kfReal.canon = true := rfl
+
+theorem kfPreF22_ok : KFOK kfPreF22 :=
+  ⟨kfReal_ok.pl_le, kfReal_ok.pl_top, kfReal_ok.sl_le, kfReal_ok.sl_gt, rfl⟩
 
 end Nomt.BranchUpd
